@@ -681,3 +681,46 @@ func checkOnesPrimitive(c *Ctx, r *Report) {
 	}
 	r.Check(bad == "", "complement.Ones|value", f.Pos(), fmt.Sprintf("b / b−255 entailed on %d paths", nPaths), "complement.Ones is not 8-bit one's complement: "+bad)
 }
+
+// bcdByEntailment: engine E1 in wrap-exact mode interprets the BCD decoder (helpers inlined)
+// for a symbolic byte b = 16·Q + R and the value returned must be entailed to be 10·Q + R on
+// every path.
+func bcdByEntailment(c *Ctx, f *ssa.Function) (bool, string) {
+	if len(f.Params) != 1 {
+		return false, "unexpected signature"
+	}
+	e := newLenflow(c, 6)
+	e.wrapExact = true
+	var b Lin
+	n, bad := 0, ""
+	e.onReturn = func(st *lfState, rets []lfVal) {
+		n++
+		if len(rets) != 1 {
+			bad = "unexpected result arity"
+			return
+		}
+		rv, ok := rets[0].(vInt)
+		if !ok {
+			bad = "the result is not an integer the engine follows"
+			return
+		}
+		Q, R := linSym(newAnonSym()), linSym(newAnonSym())
+		cons := append(append([]Cons{}, st.cons...), geq(Q, linConst(0)), geq(R, linConst(0)), leq(R, linConst(15)), geq(b, Q.scale(16).add(R, 1)), leq(b, Q.scale(16).add(R, 1)))
+		want := Q.scale(10).add(R, 1)
+		if !(entails(cons, geq(rv.E, want)) && entails(cons, leq(rv.E, want))) {
+			bad = "returns " + e.linString(rv.E)
+		}
+	}
+	e.runEntry(f, func(fr *lfFrame, st *lfState) {
+		if bv, ok := fr.env[f.Params[0]].(vInt); ok {
+			b = bv.E
+		}
+	})
+	if e.budgetHit {
+		return false, "budget exhausted"
+	}
+	if n == 0 {
+		return false, "no returning path"
+	}
+	return bad == "", bad
+}
